@@ -1,1 +1,132 @@
-From Coq Require Import Reals.
+(* C10.v — property C10: attitude representations round-trip (Euler, axis-angle, log/exp, powers). Statements only. *)
+From Coq Require Import Reals List Lra.
+From AhrsLib Require Import Base Rot Atan2.
+From AhrsGen Require Import C10gen_R.
+From AhrsProps Require Import C10_defs C10_euler C10_axang C10_explog C10_seq C10_ctor C10_mlog.
+Import ListNotations.
+Open Scope R_scope.
+
+(* roll-pitch-yaw -> quaternion -> roll-pitch-yaw, |pitch| < PI/2, roll and yaw anywhere in (-PI, PI]; three entry points *)
+Theorem C10_rpy_roundtrip : forall r p y, - PI < r <= PI -> - (PI / 2) < p < PI / 2 -> - PI < y <= PI ->
+  C10_rpy_Q_R r p y = Val [r; p; y] /\ C10_rpy_QA_R r p y = Val [r; p; y] /\ C10_rpy_O_R r p y = Val [r; p; y].
+Proof.
+  intros r p y Hr Hp Hy. assert (D : rpy_dom r p y) by (unfold rpy_dom; tauto).
+  split; [exact (rpy_Q_roundtrip r p y D)|]. split; [exact (rpy_QA_roundtrip r p y D)|exact (rpy_O_roundtrip r p y D)].
+Qed.
+Print Assumptions C10_rpy_roundtrip.
+
+(* Quaternion(rpy=a) is yaw about z, then pitch about y, then roll about x *)
+Theorem C10_rpy_quaternion_is_zyx_product : forall r p y,
+  - (2 * PI) <= r <= 2 * PI -> - (2 * PI) <= p <= 2 * PI -> - (2 * PI) <= y <= 2 * PI ->
+  C10_rpy_q_R r p y = Val (qmul [cos (y/2); 0; 0; sin (y/2)] (qmul [cos (p/2); 0; sin (p/2); 0] [cos (r/2); sin (r/2); 0; 0])).
+Proof. intros r p y Hr Hp Hy. rewrite <- q_of_rpy_is_product. exact (rpy_q_spec r p y Hr Hp Hy). Qed.
+Print Assumptions C10_rpy_quaternion_is_zyx_product.
+
+(* (axis, theta) -> quaternion -> (axis/|axis|, theta), every non-zero axis, 0 < theta < PI; and back *)
+Theorem C10_axang_roundtrip_q : forall ax ay az th, 0 < ax*ax + ay*ay + az*az -> 0 < th < PI ->
+  let n := sqrt (ax*ax + ay*ay + az*az) in
+  C10_axq_Q_R ax ay az th = Val [ax / n; ay / n; az / n; th] /\ C10_axq_O_R ax ay az th = Val [ax / n; ay / n; az / n; th].
+Proof.
+  intros ax ay az th Ha Ht. cbv zeta. split; [exact (axq_Q_roundtrip ax ay az th Ha Ht)|exact (axq_O_roundtrip ax ay az th Ha Ht)].
+Qed.
+Print Assumptions C10_axang_roundtrip_q.
+
+Theorem C10_quaternion_axang_quaternion : forall w x y z, w*w + x*x + y*y + z*z = 1 -> 0 < x*x + y*y + z*z ->
+  C10_qax_Q_R w x y z = Val [w; x; y; z].
+Proof. exact qax_Q_roundtrip. Qed.
+Print Assumptions C10_quaternion_axang_quaternion.
+
+(* (axis, theta) -> matrix: Rodrigues' matrix, a proper rotation with trace 1 + 2 cos theta and antisymmetric part 2 sin theta [u]x;
+   DCM(axang=) accepts it and to_axisangle returns (axis/|axis|, theta) *)
+Theorem C10_axang_roundtrip_R : forall ax ay az th, 0 < ax*ax + ay*ay + az*az -> 0 < th < PI ->
+  let n := sqrt (ax*ax + ay*ay + az*az) in
+  C10_from_axang_R ax ay az th = Val (Rodrigues (ax / n) (ay / n) (az / n) th) /\
+  SO3 (Rodrigues (ax / n) (ay / n) (az / n) th) /\
+  tr3 (Rodrigues (ax / n) (ay / n) (az / n) th) = 1 + 2 * cos th /\
+  C10_axR_R ax ay az th = Val [ax / n; ay / n; az / n; th].
+Proof.
+  intros ax ay az th Ha Ht. cbv zeta. pose proof (unit_dir ax ay az Ha) as U. unfold nrm3 in U.
+  split; [exact (from_axang_spec ax ay az th Ha)|]. split; [exact (Rodrigues_SO3 _ _ _ th U)|].
+  split; [exact (Rodrigues_trace _ _ _ th U)|exact (axR_roundtrip ax ay az th Ha Ht)].
+Qed.
+Print Assumptions C10_axang_roundtrip_R.
+
+(* the logarithm of a unit non-real quaternion and exp o log = id (both spellings of the two properties) *)
+Theorem C10_exp_log : forall w x y z, w*w + x*x + y*y + z*z = 1 -> 0 < x*x + y*y + z*z ->
+  let n := sqrt (x*x + y*y + z*z) in
+  C10_log_q_R w x y z = Val [0; x / n * acos w; y / n * acos w; z / n * acos w] /\
+  C10_explog_R w x y z = Val [w; x; y; z] /\ C10_explog_syn_R w x y z = Val [w; x; y; z].
+Proof.
+  intros w x y z Hq Hv. cbv zeta. split; [exact (log_q_spec w x y z Hq Hv)|].
+  split; [exact (explog_id w x y z Hq Hv)|exact (explog_syn_id w x y z Hq Hv)].
+Qed.
+Print Assumptions C10_exp_log.
+
+(* q ** a is the rotation about the same axis by a times the angle; hence q**1 = q, q**0 = 1, q**a q**b = q**(a+b) *)
+Theorem C10_power_laws : forall w x y z a b, w*w + x*x + y*y + z*z = 1 -> 0 < x*x + y*y + z*z ->
+  let n := sqrt (x*x + y*y + z*z) in
+  let P := fun k => versor_of (x / n) (y / n) (z / n) (k * acos w) in
+  C10_pow_R w x y z a = Val (P a) /\ C10_pow_R w x y z b = Val (P b) /\ C10_pow_R w x y z (a + b) = Val (P (a + b)) /\
+  P 1 = [w; x; y; z] /\ P 0 = qone /\ qmul (P a) (P b) = P (a + b) /\ qnorm2 (P a) = 1.
+Proof.
+  intros w x y z a b Hq Hv. cbv zeta.
+  pose proof (polar_of_unit w x y z Hq Hv) as (_ & PC & PS & Pn). unfold nv3 in *.
+  pose proof (unit_dir x y z Hv) as U. unfold nrm3 in U.
+  split; [exact (pow_spec w x y z a Hq Hv)|]. split; [exact (pow_spec w x y z b Hq Hv)|].
+  split; [exact (pow_spec w x y z (a + b) Hq Hv)|].
+  split. { unfold versor_of. rewrite Rmult_1_l, PC, PS. list_eq; field; lra. }
+  split. { rewrite Rmult_0_l. apply versor_of_0. }
+  split. { rewrite (versor_of_mul _ _ _ _ _ U). f_equal. ring. }
+  exact (versor_of_unit _ _ _ _ U).
+Qed.
+Print Assumptions C10_power_laws.
+
+(* elementary rotations and Euler sequences: ordered products, each factor and the product in SO(3) *)
+Theorem C10_rot_seq_is_product : forall a b c,
+  C10_rotation_x_R a = Val (Rx a) /\ C10_rotation_y_R a = Val (Ry a) /\ C10_rotation_z_R a = Val (Rz a) /\
+  C10_rot_seq_x_R a = Val (Rx a) /\ C10_rot_seq_y_R a = Val (Ry a) /\ C10_rot_seq_z_R a = Val (Rz a) /\
+  C10_rot_seq_zx_R a b = Val (mmul3 (Rz a) (Rx b)) /\ C10_rot_seq_xy_R a b = Val (mmul3 (Rx a) (Ry b)) /\
+  C10_rot_seq_yy_R a b = Val (mmul3 (Ry a) (Ry b)) /\
+  C10_rot_seq_zyx_R a b c = Val (mmul3 (Rz a) (mmul3 (Ry b) (Rx c))) /\
+  C10_rot_seq_xyz_R a b c = Val (mmul3 (Rx a) (mmul3 (Ry b) (Rz c))) /\
+  C10_rot_seq_zxz_R a b c = Val (mmul3 (Rz a) (mmul3 (Rx b) (Rz c))) /\
+  C10_rot_seq_yxy_R a b c = Val (mmul3 (Ry a) (mmul3 (Rx b) (Ry c))) /\
+  SO3 (Rx a) /\ SO3 (Ry a) /\ SO3 (Rz a) /\
+  (forall A B C, SO3 A -> SO3 B -> SO3 C -> SO3 (mmul3 A B) /\ SO3 (mmul3 A (mmul3 B C))).
+Proof.
+  intros a b c.
+  split; [exact (rotation_x_spec a)|]. split; [exact (rotation_y_spec a)|]. split; [exact (rotation_z_spec a)|].
+  split; [exact (rot_seq_x_spec a)|]. split; [exact (rot_seq_y_spec a)|]. split; [exact (rot_seq_z_spec a)|].
+  split; [exact (rot_seq_zx_spec a b)|]. split; [exact (rot_seq_xy_spec a b)|]. split; [exact (rot_seq_yy_spec a b)|].
+  split; [exact (rot_seq_zyx_spec a b c)|]. split; [exact (rot_seq_xyz_spec a b c)|]. split; [exact (rot_seq_zxz_spec a b c)|].
+  split; [exact (rot_seq_yxy_spec a b c)|].
+  split; [exact (Rx_SO3 a)|]. split; [exact (Ry_SO3 a)|]. split; [exact (Rz_SO3 a)|].
+  intros A B C HA HB HC. split; [exact (SO3_mul A B HA HB)|exact (seq3_SO3 A B C HA HB HC)].
+Qed.
+Print Assumptions C10_rot_seq_is_product.
+
+(* keyword constructors: DCM(euler=('zyx',.)), DCM(x=,y=,z=), DCM(rpy=) pass the SO(3) gate and are these products.
+   PARTIAL for DCM(rpy=): it is Rz(a0) Ry(a1) Rx(a2), i.e. the FIRST angle turns about z — the opposite naming to
+   Quaternion(rpy=) (known finding, refuted in C10_refuted.v) *)
+Theorem C10_keyword_constructors_partial : forall a b c,
+  C10_DCM_euler_zyx_R a b c = Val (mmul3 (Rz a) (mmul3 (Ry b) (Rx c))) /\
+  C10_DCM_xyz_R a b c = Val (mmul3 (Rx a) (mmul3 (Ry b) (Rz c))) /\
+  C10_DCM_rpy_R a b c = Val (mmul3 (Rz a) (mmul3 (Ry b) (Rx c))).
+Proof. intros a b c. split; [exact (DCM_euler_zyx_spec a b c)|]. split; [exact (DCM_xyz_spec a b c)|exact (DCM_rpy_spec a b c)]. Qed.
+Print Assumptions C10_keyword_constructors_partial.
+
+(* matrix logarithm: skew-symmetric, Frobenius norm sqrt 2 * theta, for every 0 < theta < PI however small *)
+Theorem C10_log_skew_norm : forall ax ay az th, 0 < ax*ax + ay*ay + az*az -> 0 < th < PI ->
+  exists L, C10_DCM_log_axang_R ax ay az th = Val L /\
+            madd3 L (mtr3 L) = [0;0;0;0;0;0;0;0;0] /\ sqrt (fro2 L) = sqrt 2 * th.
+Proof.
+  intros ax ay az th Ha Ht. eexists. split; [exact (DCM_log_axang_spec ax ay az th Ha Ht)|].
+  split; [apply mlog_spec_skew|]. apply mlog_spec_norm; [|lra].
+  pose proof (unit_dir ax ay az Ha) as U. unfold nrm3 in U. unfold nrm3'. exact U.
+Qed.
+Print Assumptions C10_log_skew_norm.
+
+Example C10_nonvacuous :
+  (- PI < 3/10 <= PI /\ - (PI / 2) < -1/2 < PI / 2) /\ (0 < 1*1 + 2*2 + 3*3 /\ 0 < 1/1000 < PI) /\
+  ((1/2)*(1/2) + (1/2)*(1/2) + (1/2)*(1/2) + (1/2)*(1/2) = 1 /\ 0 < (1/2)*(1/2) + (1/2)*(1/2) + (1/2)*(1/2)).
+Proof. pose proof PI_RGT_0. pose proof PI2_3_2 as H32. unfold PI2 in H32. repeat split; lra. Qed.
